@@ -6,9 +6,17 @@ call made in a fresh process and with earlier identical calls."""
 import hashlib, json, os, random, re, sys, time
 import vlib, gen, static_pipeline as sp
 
-MAP = json.dumps({"version": 3, "sources": ["orig.ts"], "names": [], "mappings": "AAAA;AACA;AACA"})
+def _map(sources, names, toks):
+    import map_pipeline as mp
+    return json.dumps({"version": 3, "sources": sources, "names": names, "mappings": mp.encode_mappings(toks)})
+
+
+# several sources and names: anything that reorders them between calls shows in the chained map
+MAP = _map(["orig.ts", "b.ts", "c.ts", "d.ts"], ["n1", "n2", "n3"],
+           [(0, 0, 0, 0, 0, 0), (0, 9, 1, 3, 2, 1), (1, 0, 2, 5, 0, None), (1, 4, 3, 1, 7, 2), (2, 0, 0, 9, 1, None)])
 # the two directories hold DIFFERENT maps behind the same relative reference
-MAP_B = json.dumps({"version": 3, "sources": ["other.ts"], "names": [], "mappings": "AAUA;AACA;AACA"})
+MAP_B = _map(["other.ts", "x.ts", "y.ts"], ["m1", "m2"],
+             [(0, 0, 1, 10, 0, 1), (0, 9, 0, 2, 2, None), (1, 0, 2, 4, 4, 0), (2, 0, 1, 8, 8, None)])
 CFG = {
     "A": dict(sp.FULL_CFG, chainSourceMap=True, comments=True),
     # same source names as A, other hook names, random prefix (localVarPrefix omitted)
